@@ -4,7 +4,7 @@
 # (passes without, fails with the change), runs the named checks against the scratch tree, removes the worktree.
 D=$1; shift
 WT=/tmp/st-$$
-git -C /repo worktree add -q $WT HEAD || exit 2
+git -C /repo worktree add -q --detach $WT ${BASE:-HEAD} || exit 2
 cd $WT
 PYTHONPATH=/tmp/lmdbshim /venv/bin/python $D/demo.py > /tmp/st-demo-base.log 2>&1; echo "demo on clean tree: exit $?"
 git apply $D/patch.diff || { echo "patch does not apply"; git -C /repo worktree remove --force $WT; exit 2; }
